@@ -9,6 +9,7 @@ package main
 import (
 	"encoding/json"
 	"fmt"
+	"math"
 	"os"
 	"sort"
 	"strings"
@@ -52,6 +53,9 @@ type world struct {
 type root struct {
 	Min  bool  `json:"min"`
 	Init []int `json:"init,omitempty"`
+	// Ext marks the second pass from an empty queue with the extended alphabet (see enabled); it changes nothing in
+	// how a path is replayed
+	Ext bool `json:"ext,omitempty"`
 }
 
 func newWorld(r root) *world {
@@ -118,10 +122,42 @@ func (w *world) apply(o op) (key, desc string) {
 		}
 	}()
 	switch o.Kind {
+	case "popreverse", "pushreverse":
+		// two calls with NO observation in between (whatever a call leaves half-done is still there when the next one starts)
+		first := op{Q: o.Q, Kind: "pop"}
+		if o.Kind == "pushreverse" {
+			first = op{Q: o.Q, Kind: "push", P: o.P}
+		}
+		if k, d := w.applyRaw(first); k != "" {
+			return k, d
+		}
+		if k, d := w.applyRaw(op{Q: o.Q, Kind: "reverse"}); k != "" {
+			return k, d
+		}
+		return w.observe(o)
+	}
+	if k, d := w.applyRaw(o); k != "" {
+		return k, d
+	}
+	return w.observe(o)
+}
+
+// prio maps the alphabet's priority numbers to values: 0..3, and 4 = negative zero (a legal non-negative priority that
+// compares equal to zero).
+func prio(p int) float32 {
+	if p == 4 {
+		return float32(math.Copysign(0, -1))
+	}
+	return float32(p)
+}
+
+// applyRaw performs one call on the real object and the reference without observing anything.
+func (w *world) applyRaw(o op) (key, desc string) {
+	switch o.Kind {
 	case "push":
 		w.tag++
-		w.qs[o.Q].Push(utils.NewPriorityQueueItem(float32(o.P), w.tag))
-		w.refs[o.Q] = append(w.refs[o.Q], refItem{float32(o.P), w.tag})
+		w.qs[o.Q].Push(utils.NewPriorityQueueItem(prio(o.P), w.tag))
+		w.refs[o.Q] = append(w.refs[o.Q], refItem{prio(o.P), w.tag})
 	case "pop":
 		want := w.extreme(o.Q)
 		it := w.qs[o.Q].Pop()
@@ -144,7 +180,7 @@ func (w *world) apply(o op) (key, desc string) {
 		w.isMin = append(w.isMin, !w.isMin[o.Q])
 		w.refs = append(w.refs, append([]refItem{}, w.refs[o.Q]...))
 	}
-	return w.observe(o)
+	return "", ""
 }
 
 // observe checks Len, Peek, contents and heap order of every live queue (Peek is an observation,
@@ -384,11 +420,22 @@ func build(min root, path []op) (w *world, key string, desc string) {
 	return w, "", ""
 }
 
-func enabled(w *world, maxQueues, maxLen int) []op {
+// enabled lists the steps out of a state. ext is the alphabet of the second pass from the empty roots: priorities
+// {0,1,-0.0} (thorough: {0,1,2,-0.0}) - negative zero is a legal priority equal to zero - and the compound steps (a pop or
+// push immediately followed by Reverse, nothing observed in between). Both on top of the plain alphabet multiply the
+// state count by ten, hence a pass of its own with its own seen set.
+func enabled(w *world, maxQueues, maxLen int, ext bool, thorough bool) []op {
 	var out []op
+	prios := []int{0, 1, 2, 3}
+	if ext {
+		prios = []int{0, 1, 4}
+		if thorough {
+			prios = []int{0, 1, 2, 4}
+		}
+	}
 	for q := range w.qs {
 		if len(w.refs[q]) < maxLen {
-			for p := 0; p <= 3; p++ {
+			for _, p := range prios {
 				out = append(out, op{Q: q, Kind: "push", P: p})
 			}
 		}
@@ -397,6 +444,12 @@ func enabled(w *world, maxQueues, maxLen int) []op {
 		}
 		if len(w.qs) < maxQueues {
 			out = append(out, op{Q: q, Kind: "reverse"})
+			if ext && len(w.refs[q]) > 0 {
+				out = append(out, op{Q: q, Kind: "popreverse"})
+			}
+			if ext && len(w.refs[q]) < maxLen {
+				out = append(out, op{Q: q, Kind: "pushreverse", P: 1})
+			}
 		}
 	}
 	return out
@@ -429,9 +482,13 @@ func main() {
 			}
 		}
 	}
-	seenBy := map[bool]map[string]bool{true: {}, false: {}}
+	roots = append(roots, root{Min: true, Ext: true}, root{Min: false, Ext: true})
+	seenBy := map[[2]bool]map[string]bool{}
 	for _, min := range roots {
-		seen := seenBy[min.Min]
+		if seenBy[[2]bool{min.Min, min.Ext}] == nil {
+			seenBy[[2]bool{min.Min, min.Ext}] = map[string]bool{}
+		}
+		seen := seenBy[[2]bool{min.Min, min.Ext}]
 		rootDepth := depth
 		if len(min.Init) > 0 {
 			rootDepth = depth - 2 // constructor-seeded roots merge quickly with states already seen
@@ -459,7 +516,7 @@ func main() {
 				if k != "" {
 					continue // violating states are not extended
 				}
-				for _, o := range enabled(w, maxQ, maxLen) {
+				for _, o := range enabled(w, maxQ, maxLen, min.Ext, run.Thorough()) {
 					np := append(append([]op{}, path...), o)
 					nw, k, desc := build(min, np)
 					transitions++
@@ -499,7 +556,7 @@ func main() {
 	transitions += large
 	run.Assumptions = []string{
 		"directed part: min and max queues grown to 1100 / 2600 / 4200 items (priorities 0..39 with ties), drained below an eighth, reversed, refilled and drained, every pop and the following Peek checked",
-		"priorities from {0,1,2,3} (ties included), at most " + fmt.Sprint(maxLen) + " items per queue and " + fmt.Sprint(maxQ) + " live queues",
+		"priorities from {0,1,2,3} (ties included); a second pass from the empty roots with priorities {0,1,-0.0} (thorough {0,1,2,-0.0}; negative zero is a legal priority equal to zero) and pop-then-reverse / push-then-reverse as single steps without an observation in between; at most " + fmt.Sprint(maxLen) + " items per queue and " + fmt.Sprint(maxQ) + " live queues",
 		"Values/Peek/Len/ToSlice are observations made after every step on every live queue (Values first); every reached state is additionally drained by pops and, on another copy, through ToIterator",
 	}
 	run.Finish(ev.Coverage{
@@ -509,7 +566,7 @@ func main() {
 		"max_depth_completed":           maxDepthDone,
 		"evaluations":                   transitions,
 		"distinct_nontrivial":           states,
-		"rule":                          "BFS over push/pop/reverse sequences on the real queue from 162 roots (empty min/max queue and every constructor call with 2 or 3 initial items); distinct = canonical state (heap layout up to cap, backing-array aliasing between queues, reference multiset)",
+		"rule":                          "BFS over push/pop/reverse sequences on the real queue from 162 roots (+2 for the second pass) (empty min/max queue and every constructor call with 2 or 3 initial items); distinct = canonical state (heap layout up to cap, backing-array aliasing between queues, reference multiset)",
 		"outcome_classes":               outcomes,
 		"large_queue_steps":             large,
 		"samples":                       samples.List(),
